@@ -99,3 +99,10 @@ package ipc
 //@
 //@ func isSyscallError
 //@   ensures isnil(err) ==> !result
+
+// ---- round 10 (C10 "closing a ... listener ... affects only that object"): Close releases what this
+// listener bound -- its net listener, whose Close unlinks the path it created -- and never touches the
+// path itself: the path may belong to another, live listener that refused this one ----
+//@ func (*listener).Close$1
+//@   ensures !called("Remove") && !called("RemoveAll") && !called("removeStaleIPC")
+//@   before call:Close#1 assert l.listener != nil
